@@ -167,3 +167,28 @@ def _bind_pyclasses():
 
 
 _bind_pyclasses()
+
+
+# ---- the real Message.copy (classmethod) against the model `msg_copy` used by the MailboxData contracts
+
+Msg.alias = {'_content': 'content'}
+
+
+def _cls_ctor(ex, frame, e):
+    return msg_ctor(ex, frame, e)
+
+
+message_copy = Contract(
+    'C17', F, 'Message.copy', params=dict(cls=NoneS(), msg=Msg, uid=OptS(INT), recent=BOOL, expunged=BOOL),
+    calls={'cls': _cls_ctor}, ghost_init=ghost_init,
+    requires=[('source_is_allocated', lambda s: s.ghost('alloc.Msg').has(s.msg))],
+    ensures=[
+        ('copy_is_recent_only_if_asked', lambda s: s.wrap(s.result).recent == s.recent),
+        ('same_flags', lambda s: s.wrap(s.result).permanent_flags == s.msg.permanent_flags),
+        ('same_content_object', lambda s: s.wrap(s.result).content == s.msg.content),
+        ('uid_as_given_or_kept', lambda s: s.wrap(s.result).uid == ite(is_none(s.uid), s.msg.uid, s.uid.val())),
+        ('expunged_as_given', lambda s: s.wrap(s.result).expunged == s.expunged),
+        ('a_fresh_object', lambda s: ~s.old.ghost('alloc.Msg').has(s.result)),
+    ],
+    raises_only=(), returns=Msg,
+    note='justifies the model msg_copy() that stands for Message.copy inside the MailboxData contracts')
